@@ -121,7 +121,25 @@ func (x *Exec) checkSinks(e *ast.CallExpr, st *State, calleeShort string, args [
 // `lit N requires` clause), captured variables have their current values.
 func (x *Exec) checkCallbackLit(lit *ast.FuncLit, st *State) {
 	ord := x.litOrd[lit]
+	var invs, oks []*Clause
+	if x.c != nil {
+		invs = x.c.LitInvariants[ord]
+		oks = x.c.LitOkInvariants[ord]
+	}
+	evalAt := func(s *State, cl *Clause) *Term {
+		old := x.curPos
+		x.curPos = lit.Body.Pos()
+		g := x.cbool(cl.Expr, x.cctx(s, cl))
+		x.curPos = old
+		return g
+	}
+	// the invariants hold when the callee is called
+	for _, inv := range append(append([]*Clause(nil), invs...), oks...) {
+		x.obligeClause(st, "lit", fmt.Sprintf("lit%d.inv.init.%s", ord, inv.Label), inv, evalAt(st, inv), lit.Pos())
+	}
 	s2 := st.clone()
+	// an arbitrary invocation: whatever earlier invocations assigned is unknown
+	x.havoc(s2, x.modifiedIn(lit.Body))
 	sig, _ := x.info.TypeOf(lit).(*types.Signature)
 	if sig != nil {
 		for i := 0; i < sig.Params().Len(); i++ {
@@ -131,28 +149,83 @@ func (x *Exec) checkCallbackLit(lit *ast.FuncLit, st *State) {
 	}
 	if x.c != nil {
 		for _, r := range x.c.LitRequires[ord] {
-			old := x.curPos
-			x.curPos = lit.Body.Pos()
-			s2.add(x.cbool(r.Expr, x.cctx(s2, r)))
-			x.curPos = old
+			s2.add(evalAt(s2, r))
 		}
+	}
+	for _, inv := range append(append([]*Clause(nil), invs...), oks...) {
+		s2.add(evalAt(s2, inv))
 	}
 	var rets []*State
 	old := x.litReturn
 	x.litReturn = &rets
 	ends := x.stmts(lit.Body.List, []*State{s2}, nil)
 	x.litReturn = old
-	if x.c == nil || len(x.c.LitEnsures[ord]) == 0 {
+	if x.c == nil {
 		return
 	}
-	for _, rs := range append(rets, ends...) {
-		for _, en := range x.c.LitEnsures[ord] {
-			oldPos := x.curPos
-			x.curPos = lit.Body.Pos()
-			g := x.cbool(en.Expr, x.cctx(rs, en))
-			x.curPos = oldPos
-			x.obligeClause(rs, "lit", fmt.Sprintf("lit%d.ensures.%s", ord, en.Label), en, g, lit.Pos())
+	all := append(rets, ends...)
+	for ri, rs := range all {
+		// one obligation per return path of the literal
+		at := ""
+		if len(all) > 1 {
+			at = fmt.Sprintf("@ret%d", ri+1)
 		}
+		for _, en := range x.c.LitEnsures[ord] {
+			x.obligeClause(rs, "lit", fmt.Sprintf("lit%d.ensures.%s%s", ord, en.Label, at), en, evalAt(rs, en), lit.Pos())
+		}
+		for _, inv := range invs {
+			x.obligeClause(rs, "lit", fmt.Sprintf("lit%d.inv.keep.%s%s", ord, inv.Label, at), inv, evalAt(rs, inv), lit.Pos())
+		}
+		for _, inv := range x.c.LitOkInvariants[ord] {
+			g := evalAt(rs, inv)
+			if lr, ok := rs.ghosts["litresult"].(Sc); ok && lr.T.S.Kind == SInt {
+				g = Implies(Eq(lr.T, IntC(0)), g)
+			}
+			x.obligeClause(rs, "lit", fmt.Sprintf("lit%d.inv.keep.%s%s", ord, inv.Label, at), inv, g, lit.Pos())
+		}
+	}
+}
+
+// assumeLitInvariants: after the callee returns, the callback's invariants
+// hold (they held at the call and every invocation preserves them); the
+// ok-invariants hold if the call returned a nil error.
+func (x *Exec) assumeLitInvariants(lit *ast.FuncLit, st *State, res Value) {
+	if x.c == nil {
+		return
+	}
+	at := func(cl *Clause) *Term {
+		old := x.curPos
+		x.curPos = lit.Body.Pos()
+		g := x.cbool(cl.Expr, x.cctx(st, cl))
+		x.curPos = old
+		return g
+	}
+	for _, inv := range x.c.LitInvariants[x.litOrd[lit]] {
+		st.add(at(inv))
+	}
+	oks := x.c.LitOkInvariants[x.litOrd[lit]]
+	if len(oks) == 0 {
+		return
+	}
+	var errT *Term
+	switch r := res.(type) {
+	case Sc:
+		if r.T.S.Kind == SInt {
+			errT = r.T
+		}
+	case Tu:
+		if n := len(r.Vs); n > 0 {
+			if sc, ok := r.Vs[n-1].(Sc); ok && sc.T.S.Kind == SInt {
+				errT = sc.T
+			}
+		}
+	}
+	if errT == nil {
+		return
+	}
+	x.assumes["a callee taking a callback returns a nil error only if every invocation of the callback did"] = true
+	for _, inv := range oks {
+		st.add(Implies(Eq(errT, IntC(0)), at(inv)))
 	}
 }
 
